@@ -26,7 +26,7 @@ def splits(s, rng=None, empties=True):
                 yield parts[:1] + [s[:0]] + parts[1:] + [s[:0]]
 
 
-def impl_run(items, ops, through_gateway):
+def impl_run(items, ops, through_gateway, proxyclose=False):
     """run ops on a real ChannelFileRead; returns list of results or ('EXC', name)"""
     from execnet import gateway_base as gb
 
@@ -51,7 +51,7 @@ def impl_run(items, ops, through_gateway):
             def isclosed(self):
                 return bool(self.closed)
         ch = FakeChan(items)
-    f = gb.ChannelFileRead(ch, proxyclose=False)
+    f = gb.ChannelFileRead(ch, proxyclose=proxyclose)
     out = []
     for op in ops:
         try:
@@ -205,7 +205,7 @@ def main(tier, seed, replay=None):
             ck.broke("correspondence", "modelrun", repr(e))
     ndis = 0
     for idx, (items, ops, isb, gwy) in enumerate(cases):
-        got = impl_run(items, ops, gwy)
+        got = impl_run(items, ops, gwy, proxyclose=bool(idx % 2))   # the reads are the same whoever owns the channel
         want = ref_run(items, ops, isb)
         canon = (tuple(items), tuple(ops), isb)
         ck.case(canon, nontrivial=len(items) > 0)
